@@ -16,6 +16,7 @@ RULE = ('five Hypothesis sub-checks.  djs_reject: data/model 1-D 5-80 (2-D for g
         'harness-chosen bits representable in that dtype, other bits set at random, ngrow 0-4: result == invvar x (no flagged pixel within ngrow along '
         'the row).  Non-trivial: rejected point next to a good one with grow >= 1; masked run touching an array end; flagged pixel within ngrow of a row end.')
 RULE += '  Also: integer and float32 data for djs_maskinterp, residuals exactly on maxdev (quantised data), zero limits, tiny positive ivar for aesthetics.'
+RULE += ' Round 5: negative mask flag values for djs_maskinterp.'
 ASSUMPTIONS = ['djs_reject: maxrej/groupsize/groupdim/groupbadpix are not part of the statement and not generated; sigma or invvar is always supplied; a scalar sigma is > 0, a sigma array may contain exact zeros (zero-width band)',
                'xval values are distinct within a line',
                'the SPPIXMASK bit table is installed by the harness per case (bits below the sign bit of the mask dtype)',
